@@ -163,8 +163,10 @@ theorem getSubject_cameFrom {cfg : Cfg} {env : Env} {st st' : St} {a : Assertion
       have := confirmLoop_cameFrom hc hl
       split at h
       · cases h
-      · cases h
-        split <;> simpa using this
+      · split at h
+        · cases h
+        · cases h; exact this
+        · cases h; simpa using this
 
 theorem conditionOk_cameFrom {cfg : Cfg} {env : Env} {st st' : St} {a : Assertion}
     (h : conditionOk cfg env st a = .ok st') : st'.cameFrom = st.cameFrom := by
@@ -585,6 +587,61 @@ theorem confirmLoop_times {cfg : Cfg} {env : Env} :
           · cases h
         · cases h
 
+theorem bearerConfirmed_keepsNameId {cfg : Cfg} {env : Env} {st st' : St} {d : Option ScData}
+    (h : bearerConfirmed cfg env st d = .yes st') : st'.nameId = st.nameId := by
+  unfold bearerConfirmed at h
+  split at h
+  · cases h
+  next dd =>
+    split at h
+    · cases h
+    split at h
+    · cases h
+    split at h
+    · cases h
+    split at h
+    · split at h
+      · split at h
+        · cases h; rfl
+        · split at h
+          · cases h; rfl
+          · split at h
+            · cases h; rfl
+            · cases h
+      · cases h; rfl
+    · cases h; rfl
+
+theorem confirmLoop_keepsNameId {cfg : Cfg} {env : Env} :
+    ∀ {confs : List SubjConf} {st st' : St} {n m : Nat},
+      confirmLoop cfg env st confs n = .ok (st', m) → st'.nameId = st.nameId
+  | [], st, st', n, m, h => by unfold confirmLoop at h; cases h; rfl
+  | sc :: rest, st, st', n, m, h => by
+    unfold confirmLoop at h
+    simp only at h
+    split at h
+    · cases h
+    · exact confirmLoop_keepsNameId h
+    next st1 hstep =>
+      have h1 : st1.nameId = st.nameId := by
+        split at hstep
+        · exact bearerConfirmed_keepsNameId hstep
+        · split at hstep
+          · split at hstep
+            · cases hstep; rfl
+            · cases hstep
+          · cases hstep
+        · cases hstep; rfl
+        · cases hstep
+      split at h
+      · cases h
+      next d hd =>
+        split at h
+        next r hr =>
+          split at h
+          · exact (confirmLoop_keepsNameId h).trans h1
+          · cases h
+        · cases h
+
 theorem getSubject_facts {cfg : Cfg} {env : Env} {st st' : St} {a : Assertion}
     (h : getSubject cfg env st a = .ok st') :
     ∃ s, a.subject = some s ∧ (∀ sc ∈ s.confs, scFacts cfg env sc) ∧
@@ -603,8 +660,58 @@ theorem getSubject_facts {cfg : Cfg} {env : Env} {st st' : St} {a : Assertion}
       have hst : st1.notOnOrAfter = st.notOnOrAfter ∧ st1.sessionNooa = st.sessionNooa := confirmLoop_times hl
       split at h
       · cases h
+      · split at h
+        · cases h
+        · cases h; exact ⟨hfacts, hst⟩
+        · cases h; exact ⟨hfacts, hst⟩
+
+/-- The extension conditions of an accepted assertion are all typed with a schema the receiver was given. -/
+theorem conditionOk_extra {cfg : Cfg} {env : Env} {st st' : St} {a : Assertion}
+    (h : conditionOk cfg env st a = .ok st') :
+    ∀ c, a.conditions = some c → ∀ t ∈ c.extra, extKnown cfg t = true := by
+  intro c hc t ht
+  unfold conditionOk at h
+  rw [hc] at h
+  simp only at h
+  split at h
+  next hempty =>
+    simp only [Bool.and_eq_true, List.isEmpty_iff] at hempty
+    rw [hempty.2] at ht; cases ht
+  · split at h
+    · cases h
+    split at h
+    · cases h
+    split at h
+    · cases h
+    split at h
+    · cases h
+    split at h
+    · cases h
+    next hext =>
+      have hall : c.extra.any (fun t => !extKnown cfg t) = false := by simpa using hext
+      have := List.any_eq_false.mp hall t ht
+      simpa using this
+
+/-- What `get_subject` stores as the subject's identifier. -/
+theorem getSubject_id {cfg : Cfg} {env : Env} {st st' : St} {a : Assertion}
+    (h : getSubject cfg env st a = .ok st') :
+    ∃ s, a.subject = some s ∧
+      ((subjectId s = .ok none ∧ st'.nameId = st.nameId) ∨ (∃ n, subjectId s = .ok (some n) ∧ st'.nameId = some n)) := by
+  unfold getSubject at h
+  split at h
+  · cases h
+  next s hs =>
+    refine ⟨s, hs, ?_⟩
+    split at h
+    · cases h
+    split at h
+    · cases h
+    next st1 n hl =>
+      split at h
       · cases h
-        refine ⟨hfacts, ?_⟩
-        split <;> exact hst
+      · split at h
+        · cases h
+        next hid => cases h; exact Or.inl ⟨hid, confirmLoop_keepsNameId hl⟩
+        next m hid => cases h; exact Or.inr ⟨m, hid, rfl⟩
 
 end Sp
